@@ -17,7 +17,7 @@ LEVEL_TEXT = (
     'trace uses the caller\'s seed. Wall-clock bounds and "reaches the target when more states exist" '
     'are not decided.')
 
-FLOORS = {'C12-R1': 24, 'C12-R2': 6, 'C12-R3': 8, 'C12-R4': 3, 'C05-R1': 6, 'C05-R10': 2, 'C12-R6': 4, 'C12-R7': 4, 'C12-R8': 20, 'C01-R6': 12}
+FLOORS = {'C12-R1': 24, 'C12-R2': 6, 'C12-R3': 8, 'C12-R4': 3, 'C05-R1': 6, 'C05-R10': 2, 'C12-R6': 4, 'C12-R7': 4, 'C12-R8': 20, 'C01-R6': 12, 'C05-R6': 4}
 
 OPTIONS = ('finish_when', 'target_state_count', 'target_max_depth', 'timeout', 'visitor', 'thread_count')
 
@@ -570,6 +570,11 @@ def run(ctx):
     with ctx.rule('C05-R10', 'new'):
         c05.r10_initial_market(ctx, F)
     r6_shutdown_observed(ctx, F)
+    # "stops within a bounded delay after expiry for every thread count": every broker that goes away closes the
+    # market, clears it and wakes the sleepers - also when the timeout thread has already flipped `open`
+    ctx.doc('C05-R6', 'Drop for JobBroker sets open=false, clears batches and notifies all on every path')
+    with ctx.rule('C05-R6', 'drop'):
+        c05.r6_drop(ctx, F)
     with ctx.rule('C12-R7', 'SIM'):
         r7_seed(ctx, F)
     extra_rules(ctx, F)
